@@ -268,15 +268,10 @@ func (e *Engine) solve(res *HarnessResult) {
 		s.Time, s.Querys = 0, 0
 		mu.Unlock()
 	}
-	checkCmd := func() string {
-		if isCVC || spec.NoTactic {
-			return "(check-sat)\n"
-		}
-		return fmt.Sprintf("(check-sat-using (try-for qfaufbv %d))\n", timeout.Milliseconds())
-	}
 	// runIn decides (assumptions[0:nassume] filtered by mode) AND cond in context c.
 	runIn := func(c *sctx, mode int, nassume int, cond *Term, fresh bool, t0 time.Time) (string, map[string]string, bool) {
-		if c.s == nil || c.s.dead || fresh || nassume < c.nAsserted {
+		oneShot := true // self-contained script after (reset): z3 then uses its tactic solver, cvc5 its non-incremental preprocessing
+		if c.s == nil || c.s.dead || (isCVC && (fresh || nassume < c.nAsserted)) {
 			if c.s != nil {
 				account(c.s)
 				c.s.Kill()
@@ -287,6 +282,15 @@ func (e *Engine) solve(res *HarnessResult) {
 		}
 		s := c.s
 		var sb strings.Builder
+		if oneShot {
+			c.pr = NewPrinter()
+			c.nAsserted = 0
+			if isCVC {
+				sb.WriteString("(reset)\n(set-logic ALL)\n")
+			} else {
+				sb.WriteString("(reset)\n(set-option :produce-models true)\n")
+			}
+		}
 		for ; c.nAsserted < nassume; c.nAsserted++ {
 			if mode == 0 && e.isFact[c.nAsserted] {
 				continue
@@ -298,7 +302,17 @@ func (e *Engine) solve(res *HarnessResult) {
 		}
 		c.pr.Define(cond)
 		sb.WriteString(c.pr.Flush())
-		fmt.Fprintf(&sb, "(push 1)\n(assert %s)\n", c.pr.ref(cond))
+		if oneShot {
+			fmt.Fprintf(&sb, "(assert %s)\n", c.pr.ref(cond))
+		} else {
+			fmt.Fprintf(&sb, "(push 1)\n(assert %s)\n", c.pr.ref(cond))
+		}
+		if dd := os.Getenv("GOSMT_DUMPDIR"); dd != "" {
+			mu.Lock()
+			dumpN++
+			os.WriteFile(filepath.Join(dd, fmt.Sprintf("q%03d.smt2", dumpN)), []byte(strings.Replace(sb.String(), "(reset)\n", "", 1)+"(check-sat)\n"), 0o644)
+			mu.Unlock()
+		}
 		if err := s.Exec(sb.String()); err != nil {
 			s.Kill()
 			return "error: " + err.Error(), nil, false
@@ -307,27 +321,28 @@ func (e *Engine) solve(res *HarnessResult) {
 		if fresh && to > 20*time.Second {
 			to = 20 * time.Second // group queries are an optimisation: give up early, decide individually
 		}
-		cmd := checkCmd()
-		if fresh && !isCVC && !spec.NoTactic {
-			cmd = fmt.Sprintf("(check-sat-using (try-for qfaufbv %d))\n", to.Milliseconds())
+		if mode == 0 && !fresh {
+			// the facts-free attempt is an optimisation too
+			if to = timeout / 4; to > 20*time.Second {
+				to = 20 * time.Second
+			}
+			if to < 3*time.Second {
+				to = 3 * time.Second
+			}
 		}
-		v := s.CheckSatCmd(cmd, to)
-		if !isCVC && !spec.NoTactic && (strings.HasPrefix(v, "error") || v == "unknown") && !s.dead && time.Since(t0) < to/2 {
-			// tactic not applicable (e.g. lambda terms): default solver
-			v = s.CheckSatCmd("(check-sat)\n", to)
-		}
+		v := s.CheckSatCmd("(check-sat)\n", to)
 		var model map[string]string
 		if v == "sat" {
 			model = e.readModel(s, c.pr)
 		}
-		if !s.dead {
+		if !s.dead && !oneShot {
 			if err := s.Exec("(pop 1)\n"); err != nil {
 				s.Kill()
 			}
-		}
-		if fresh && !s.dead {
-			account(s)
-			s.Kill()
+			if fresh {
+				account(s)
+				s.Kill()
+			}
 		}
 		account(s)
 		return v, model, true
